@@ -502,3 +502,12 @@ def width_tables(facts):
                   {"channels": k, "callee": cid})
     rr.require_floor(34, "dispatch rows and instance clauses")
     return [rr]
+
+
+def feeder_body(facts):
+    """The par feeder by role: the function of module `par` whose body calls Source::read_samples."""
+    out = [b for b in facts.body_list if b.module == "par" and b.kind == "Fn" and any(
+        re.search(r"Source>::read_samples", (t.get("fn") or {}).get("full") or "") for _bi, t in b.calls())]
+    if len(out) != 1:
+        raise FactError("par feeder (caller of read_samples) not found uniquely: %s" % [b.id for b in out])
+    return out[0]
